@@ -32,13 +32,17 @@ NEEDS = {
 
 def main():
     letter, resdir, prefix = sys.argv[1], sys.argv[2], sys.argv[3]
-    rnd = {"A": 1, "B": 1, "C": 2, "D": 3, "E": 4}[letter]
+    rnd = {"A": 1, "B": 1, "C": 2, "D": 3, "E": 4, "F": 5}[letter]
     kinds = {"D": "two cooperating sites that each look fine alone, or state that survives between uses",
-             "E": "a performance optimisation a maintainer would merge that is subtly wrong for a narrow class of inputs"}
+             "E": "a performance optimisation a maintainer would merge that is subtly wrong for a narrow class of inputs",
+             "F": "a clean-up / refactoring / modernisation commit that is not quite behaviour-preserving"}
+    sys.path.insert(0, os.path.dirname(os.path.abspath(__file__)))
     if letter == "E":
-        sys.path.insert(0, os.path.dirname(os.path.abspath(__file__)))
         from seedmeta_e import NEEDS_E
         table = NEEDS_E
+    elif letter == "F":
+        from seedmeta_f import NEEDS_F
+        table = NEEDS_F
     else:
         table = NEEDS[letter]
     for pid, (needs, hist) in sorted(table.items()):
